@@ -339,7 +339,8 @@ def rdataWire (origin : Option (List UInt8)) : PRdata → Option (List UInt8)
   or omitted.  Type: mnemonic in any case or `TYPEnnn`.  RDATA: the RFC 3597 form `\# len hex`
   for any class and type, or the typed syntax of A, NS/MD/MF/CNAME/MB/MG/MR/PTR, MX, SOA, MINFO,
   SRV, TXT, HINFO (names relative / absolute / `@`; character-strings quoted or unquoted with
-  escapes).  Directives: `$ORIGIN <absolute name>`, `$TTL <decimal>`.  Blank and comment-only
+  escapes).  Directives: `$ORIGIN <absolute name>`, `$TTL <decimal>`,
+  `$INCLUDE <path> [<origin>]`.  Blank and comment-only
   lines.  Not in this subset (see C23.lean): AAAA, WKS and Chaosnet A typed syntax, parentheses
   in directives, a last line without newline. -/
 
@@ -369,6 +370,8 @@ inductive PEntry where
   | record (p : PRecord)
   | origin (ls : List PLabel) (sep trail comment : List UInt8) (crlf : Bool)
   | ttl (n : Nat) (sep trail comment : List UInt8) (crlf : Bool)
+  /-- `$INCLUDE <path> [<origin>]`: the path a string (quoted or not), the origin a name -/
+  | incl (path : PString) (origin : Option PName) (sep sep2 trail comment : List UInt8) (crlf : Bool)
   deriving Repr, Inhabited
 
 def ownerText : POwner → List UInt8
@@ -405,6 +408,11 @@ def renderEntry : PEntry → List UInt8
     [36, 79, 82, 73, 71, 73, 78] ++ sep ++ renderAbsName ls ++ trail ++ comment ++ eolText crlf   -- `$ORIGIN`
   | .ttl n sep trail comment crlf =>
     [36, 84, 84, 76] ++ sep ++ decimal n ++ trail ++ comment ++ eolText crlf                       -- `$TTL`
+  | .incl path origin sep sep2 trail comment crlf =>
+    [36, 73, 78, 67, 76, 85, 68, 69] ++ sep ++ stringText path ++                                  -- `$INCLUDE`
+      (match origin with
+       | some n => sep2 ++ nameText n
+       | none => []) ++ trail ++ comment ++ eolText crlf
 
 def renderFile (es : List PEntry) : List UInt8 := es.flatMap renderEntry
 
@@ -484,16 +492,32 @@ def denoteRecord (valid : Nat → Nat → List UInt8 → Bool) (c : SCtx) (line 
     | none => none
   | _, _, _ => none
 
-/-- the records a file denotes, with their line numbers -/
-def denoteFile (valid : Nat → Nat → List UInt8 → Bool) : List PEntry → SCtx → Nat → Option (List SRecord)
+/-- what a file denotes, entry by entry: records, and requests to include another file -/
+inductive SItem where
+  | record (r : SRecord)
+  /-- `$INCLUDE` at `line`: the path, and the origin the included file starts with (the one
+      given, or the current one) -/
+  | incl (line : Nat) (path : List UInt8) (origin : Option (List UInt8))
+  deriving Repr, DecidableEq, Inhabited
+
+/-- the records (and include requests) a file denotes, in order, with their line numbers.  An
+    `$INCLUDE` leaves the context as it is (what the included file does to it is C25). -/
+def denoteFile (valid : Nat → Nat → List UInt8 → Bool) : List PEntry → SCtx → Nat → Option (List SItem)
   | [], _, _ => some []
   | .blank _ _ _ :: es, c, line => denoteFile valid es c (line + 1)
   | .origin ls _ _ _ _ :: es, c, line =>
     denoteFile valid es { c with origin := some (wireName (ls.map labelOctets)) } (line + labelLines ls + 1)
   | .ttl n _ _ _ _ :: es, c, line => denoteFile valid es { c with defaultTtl := some (ttlValue n) } (line + 1)
+  | .incl path origin _ _ _ _ _ :: es, c, line => do
+    let o ← match origin with
+      | some n => (nameWire c.origin n).map some
+      | none => some c.origin
+    let rest ← denoteFile valid es c
+      (line + stringLines path + (match origin with | some n => nameLines n | none => 0) + 1)
+    pure (.incl line (stringOctets path) o :: rest)
   | .record p :: es, c, line => do
     let (r, c') ← denoteRecord valid c line p
     let rest ← denoteFile valid es c' (line + recordLines p + 1)
-    pure (r :: rest)
+    pure (.record r :: rest)
 
 end QV.Spec.ZF
